@@ -528,6 +528,7 @@ type Peer struct {
 	seq      uint32
 	Fresh    bool
 	AnswerHB bool     // answer the agent's own Heartbeat Requests
+	DupHB    bool     // ... twice
 	Inbox    [][]byte // agent-originated requests seen meanwhile (heartbeats, session reports)
 	pastBarriers map[uint32]bool
 }
@@ -543,6 +544,9 @@ func (p *Peer) service(r []byte) bool {
 		p.Inbox = append(p.Inbox, r)
 		if p.AnswerHB {
 			_ = p.SendRaw(Marshal(message.NewHeartbeatResponse(m.Sequence(), ie.NewRecoveryTimeStamp(time.Unix(1700000000, 0)))))
+			if p.DupHB { // the same answer once more (a duplicated datagram, or a peer that answers the retransmission too)
+				_ = p.SendRaw(Marshal(message.NewHeartbeatResponse(m.Sequence(), ie.NewRecoveryTimeStamp(time.Unix(1700000000, 0)))))
+			}
 		}
 		return true
 	case message.MsgTypeSessionReportRequest, message.MsgTypeAssociationSetupRequest:
